@@ -9,6 +9,7 @@ EntRow(e) == [path |-> JoinPath(e.path), type |-> e.type, content |-> IF e.type 
               mode |-> e.mode, uid |-> e.uid, gid |-> e.gid, mtime |-> e.mtime]
 Cases == {[old |-> [i \in DOMAIN OldSpec(s) |-> OldRow(OldSpec(s)[i])],
            cset |-> [i \in DOMAIN CsetSpec(s) |-> EntRow(CsetSpec(s)[i])],
+           mounts |-> SetToSeq({JoinPath(m) : m \in MountsOf(s)}),
            sel |-> s] : s \in Sel}
 ASSUME ndJsonSerialize(IOEnv.OUT, SetToSeq(Cases))
 =============================================================================
